@@ -294,6 +294,11 @@ bool url_aggregator::set_password(const std::string_view input) {
 }
 
 bool url_aggregator::set_port(const std::string_view input) {
+  return set_port_impl(input, true);
+}
+
+bool url_aggregator::set_port_impl(const std::string_view input,
+                                   const bool check_max_length) {
   ada_log("url_aggregator::set_port ", input);
   ADA_ASSERT_TRUE(validate());
   ADA_ASSERT_TRUE(!helpers::overlaps(input, buffer));
@@ -328,7 +333,7 @@ bool url_aggregator::set_port(const std::string_view input) {
   url_aggregator saved_url(*this);
   parse_port(digits_to_parse);
   if (is_valid) {
-    if (buffer.size() > ada::get_max_input_length()) {
+    if (check_max_length && buffer.size() > ada::get_max_input_length()) {
       *this = std::move(saved_url);
       return false;
     }
@@ -656,8 +661,11 @@ bool url_aggregator::set_host_or_hostname(const std::string_view input) {
       // Set url's host to host, buffer to the empty string, and state to port
       // state.
       std::string_view port_buffer = new_host.substr(location + 1);
+      // An invalid port leaves the new host in place; a result that exceeds the
+      // maximum length must fail the whole setter, so the size is checked once,
+      // below, on the final result.
       if (!port_buffer.empty()) {
-        set_port(port_buffer);
+        set_port_impl(port_buffer, false);
       }
       return check_url_size();
     }
